@@ -26,7 +26,7 @@ int run_nodeinfo(const Args& a) {
         ses.reenter();
         Model model;
         TreeGen tg(r, kg, 260, 24);
-        int family = static_cast<int>(p % 7);
+        int family = static_cast<int>(p % 8);
         if (p % 3 != 0) { tg.build(ses.tok, storage, model, family); }
         yk::tree_instance* ti = nullptr;
         yk::find_storage(storage, &ti);
